@@ -339,11 +339,25 @@ func orderAdvance(r *engine.Run) {
 		}
 		touched := false
 		engine.Instrs(w, func(in ssa.Instruction) {
-			fa, ok := in.(*ssa.FieldAddr)
-			if !ok || !isNamed(fa.X.Type(), pkgLog, "MemCore") || engine.FieldOf(fa).Name() != "r" {
+			// the ring is consulted: one of its methods is called or a slot is addressed
+			// (a nil test of the cursor pointer alone reads nothing of the ring)
+			consulted := false
+			switch x := in.(type) {
+			case *ssa.Call:
+				for _, m := range []string{"Prev", "Next", "Len", "Do", "Move"} {
+					if extCalleeIs(x, "container/ring", "Ring", m) {
+						consulted = true
+					}
+				}
+			case *ssa.FieldAddr:
+				if isNamed(x.X.Type(), "container/ring", "Ring") {
+					consulted = true
+				}
+			}
+			if !consulted {
 				return
 			}
-			if fa.Block() == ret.Block() || fa.Block().Dominates(ret.Block()) {
+			if in.Block() == ret.Block() || in.Block().Dominates(ret.Block()) {
 				touched = true
 			}
 		})
